@@ -105,8 +105,13 @@ def main(argv):
         else:
             names.append(a)
     if not names:
-        names = sorted(n for n in os.listdir(SEEDED)
-                       if os.path.exists(os.path.join(SEEDED, n, 'meta.json')))
+        names = []
+        for n in sorted(os.listdir(SEEDED)):
+            mp = os.path.join(SEEDED, n, 'meta.json')
+            if os.path.exists(mp):
+                with open(mp) as f:
+                    if not json.load(f).get('void_on_current_tree'):
+                        names.append(n)
     results = []
     for name in names:
         res = run_one(name, tier, demo)
